@@ -33,7 +33,7 @@ RtCodes(e) ==
         \cup (IF e.dpanic = 1 THEN {<<"C01.decpanic", 0>>}
               ELSE IF e.derr = 1 THEN {<<"C01.decerr", 0>>}
               ELSE IF e.carrier = 1 THEN {<<"C06.carrier", 0>>}
-              ELSE SameCodes(C, e.v, e.r)))
+              ELSE SameCodes(C, e.v, e.r) \cup GenericMapCodes(C, e.v, e.r)))
 
 (* ---- streams: n values written one after another on one stream ---- *)
 (* acc = [p, st, S, bad]; value k must start where value k-1 ended, parse  *)
